@@ -177,7 +177,8 @@ inline void run_seq(const SeqProg &p) {
 
 // ================================================================ (b) threads
 struct Reader_ { uint8_t flavour; uint8_t yields; uint8_t mode; };      // flavour 0 coroutine, 1 blocking
-struct MtProg { uint8_t count; uint8_t batch_at; uint8_t pub_yields; uint8_t finish; std::vector<Reader_> rd; uint8_t second_pub; uint8_t late_sub; uint8_t kick0; uint8_t copy0 = 0; };   // copy0: yields before another thread COPIES subscriber 0 (while its owner reads) and reads the copy to the end   // late_sub / kick0: 0 no, else yields before a late subscriber subscribes / before subscriber 0 is kicked   // finish 0 close, 1 destroy; second_pub: values published concurrently by a 2nd thread
+struct MtProg { uint8_t count; uint8_t batch_at; uint8_t pub_yields; uint8_t finish; std::vector<Reader_> rd; uint8_t second_pub; uint8_t late_sub; uint8_t kick0; uint8_t copy0 = 0; uint8_t bounded = 0; };   // bounded: a different, smaller scenario - publisher<Counted> with a finite maximum queue length (1..3) against subscriber threads
+//   // copy0: yields before another thread COPIES subscriber 0 (while its owner reads) and reads the copy to the end   // late_sub / kick0: 0 no, else yields before a late subscriber subscribes / before subscriber 0 is kicked   // finish 0 close, 1 destroy; second_pub: values published concurrently by a 2nd thread
 inline MtProg decode_mt(hz::Reader &r) {
     MtProg p; p.count = (uint8_t)(1 + r.mod(5)); p.batch_at = (uint8_t)r.mod(6); p.pub_yields = (uint8_t)r.mod(3); p.finish = (uint8_t)r.mod(2);
     unsigned n = 1 + r.mod(3);
@@ -188,10 +189,12 @@ inline MtProg decode_mt(hz::Reader &r) {
     if (p.finish == 1 || p.second_pub) { p.late_sub = 0; p.kick0 = 0; }      // both need the publisher object alive and value == position
     p.copy0 = (uint8_t)(r.mod(3) == 1 ? 1 + r.mod(4) : 0);
     if (p.finish == 1 || p.second_pub || p.kick0) p.copy0 = 0;
+    p.bounded = (uint8_t)(r.mod(4) == 2 ? 1 + r.mod(3) : 0);
     return p;
 }
 inline std::string describe_mt(const MtProg &p) {
-    hz::Desc d; d << "publisher thread publishes " << (unsigned)p.count << " values (batch of 2 at #" << (unsigned)p.batch_at << ")";
+    hz::Desc d;
+    if (p.bounded) { d << "publisher<instance-counted value>(max queue " << (unsigned)p.bounded << ", min 1): a thread publishes " << (unsigned)(p.count + 2) << " values and closes; subscriber threads:"; for (auto &x : p.rd) d << " [blocking next(), " << modes[x.mode] << ", yield*" << (unsigned)x.yields << "]"; return d.s; } d << "publisher thread publishes " << (unsigned)p.count << " values (batch of 2 at #" << (unsigned)p.batch_at << ")";
     if (p.second_pub) d << ", a second thread publishes " << (unsigned)p.second_pub << " values concurrently";
     d << ", then " << (p.finish ? "the publisher is destroyed" : "close()");
     if (p.late_sub) d << "; a late all_values subscriber subscribes concurrently (after " << (unsigned)p.late_sub << " yields)";
@@ -328,7 +331,40 @@ struct MtRun {
         pub.reset();
     }
 };
+// bounded queue of instance-counted values: a subscriber that falls behind may legitimately see the end of the stream, but every value
+// it does receive is one that was published - complete and alive - and later than the one before
+// (deque::resize inside the publisher needs a default constructor even when it only shrinks)
+struct CItem : val::Counted { CItem() : val::Counted(0) {} explicit CItem(int v) : val::Counted(v) {} };
+inline void run_mt_bounded(const MtProg &p) {
+    using PubC = cocls::publisher<CItem>; using SubC = cocls::subscriber<CItem>;
+    {
+        PubC pub(p.bounded, 1);
+        const int total = p.count + 2;
+        std::vector<std::unique_ptr<SubC>> subs; std::vector<std::vector<int>> got(p.rd.size());
+        for (size_t i = 0; i < p.rd.size(); i++) subs.emplace_back(new SubC(pub, (ST)p.rd[i].mode));
+        std::vector<std::thread> th;
+        for (size_t i = 0; i < p.rd.size(); i++) th.emplace_back([&, i] {
+            SubC &s = *subs[i];
+            for (;;) { hz::upoints(p.rd[i].yields); bool more = (bool)s.next(); if (!more) break; got[i].push_back(s.value().val()); }
+        });
+        std::thread pt([&] { for (int k = 1; k <= total; k++) { hz::upoints(p.pub_yields); pub.publish(CItem(k)); } hz::upoints(p.pub_yields); pub.close(); });
+        pt.join(); for (auto &t : th) t.join();
+        for (size_t i = 0; i < got.size(); i++) {
+            int last = 0;
+            for (int v : got[i]) {
+                HZ_CHECK(v >= 1 && v <= total, "subscriber %zu of a bounded publisher received %d: not one of the %d published values (a destroyed, moved-from or torn item)", i, v, total);
+                HZ_CHECK(v > last, "subscriber %zu of a bounded publisher received %d after %d (duplicate or reorder)", i, v, last);
+                if (p.rd[i].mode == 0) HZ_CHECK(last == 0 || v == last + 1, "all_values subscriber %zu of a bounded publisher received %d after %d: a gap without an end-of-stream indication", i, v, last);
+                last = v;
+            }
+        }
+        subs.clear();
+    }
+    val::check_counted_balance("end of case");
+    hz::count(4, 1);
+}
 inline void run_mt(const MtProg &p) {
+    if (p.bounded) { run_mt_bounded(p); hz::set_class(2 + (vrt::stats().preempt_in_lib ? 1 : 0)); hz::set_nontrivial(vrt::stats().switches > 0); return; }
     { MtRun R; R.run(p); }
     hz::set_class(2 + (vrt::stats().preempt_in_lib ? 1 : 0));
     hz::set_nontrivial(vrt::stats().switches > 0);
@@ -337,6 +373,6 @@ inline void run_mt(const MtProg &p) {
 inline void run(hz::Reader &r) { unsigned sel = r.mod(3); if (sel < 2) run_seq(decode_seq(r)); else run_mt(decode_mt(r)); }
 inline std::string describe(hz::Reader &r) { unsigned sel = r.mod(3); if (sel < 2) return "history: " + describe_seq(decode_seq(r)); return "threads: " + describe_mt(decode_mt(r)); }
 static const char *const class_names[] = {"history", "history:parked-subscriber-woken", "threads:no-lib-preempt", "threads:preempted-in-library"};
-static const char *const counter_names[] = {"reads_with_lag>=2", "parked_subscribers_woken", "end_indications", "subscriber_copied_by_another_thread"};
+static const char *const counter_names[] = {"reads_with_lag>=2", "parked_subscribers_woken", "end_indications", "subscriber_copied_by_another_thread", "bounded_publisher_of_counted_values_cases"};
 
 } // namespace scen_pub
